@@ -357,6 +357,35 @@ def _pfr_and_cli(case, o, family, descs, ref, work, rot_type) -> None:
                     got = CMPA.load_from_config(c2).export(draw=False)
                 o.eq("invariance", "pfr.rotkh_after_earlier_value:" + how, bytes(got[reg.offset : reg.offset + width]), want)
         o.label("pfr", "pfr:" + pf)
+        if case["cli"] in (1, 2):
+            # `pfr generate-binary -c cmpa.yaml -sf <key file> ... -o cmpa.bin`: the key files in the order given (their names sort differently)
+            with o.spsdk("cli", "pfr_generate_binary"):
+                import yaml
+                from click.testing import CliRunner
+
+                from spsdk.apps import pfr as pfr_app
+
+                wd = os.path.join(work, "pfrcli-%d" % os.getpid())
+                os.makedirs(wd, exist_ok=True)
+                cfg_path = os.path.join(wd, "cmpa.yaml")
+                with open(cfg_path, "w", encoding="utf-8") as f:
+                    yaml.safe_dump(CMPA(family=pf).get_config(), f)
+                args = ["generate-binary", "-c", cfg_path, "-o", os.path.join(wd, "cmpa.bin"), "--ignore"]
+                names = []
+                for i, d in enumerate(descs):
+                    nm = "%s_root.pem" % hashlib.sha256(b"%d/%d" % (i, case["family"])).hexdigest()[:6]
+                    names.append(nm)
+                    with open(os.path.join(wd, nm), "wb") as f:
+                        f.write(K.public_pem(K.key_from_desc(d)))
+                    args += ["-sf", os.path.join(wd, nm)]
+                res = CliRunner().invoke(pfr_app.main, args, catch_exceptions=True)
+                if o.check("cli", res.exit_code == 0, "pfr_generate_binary_exit", "exit %s: %s %r" % (res.exit_code, (res.output or "")[-300:], res.exception)):
+                    with open(os.path.join(wd, "cmpa.bin"), "rb") as f:
+                        out = f.read()
+                    o.eq("reference", "pfr.cli_rotkh", bytes(out[reg.offset : reg.offset + width]), want)
+                if names != sorted(names):
+                    o.label("pfr_cli:names_not_sorted")
+            o.label("pfr_cli")
     if case["cli"] == 0:
         with o.spsdk("cli"):
             from click.testing import CliRunner
